@@ -180,7 +180,9 @@ pub fn run(cx: &mut Cx) {
     let n_matrix = (EXPRS.len() + STMTS.len()) as u64;
     // (F) references that exist when first registered and vanish when their provider is replaced
     let n_repl = (POSITIONS.len() + 3) as u64;
-    let total = n_ref + n_depth + n_crash + n_matrix + n_repl + cx.total(2000, 40_000);
+    // (G) break/continue under every nesting of loops, captures and branches
+    let n_brk = 64u64;
+    let total = n_ref + n_depth + n_crash + n_matrix + n_repl + n_brk + cx.total(2000, 40_000);
     let dump = cx.dump;
     for case in cx.my_cases(total) {
         let mut rng = cx.rng(case);
@@ -484,6 +486,142 @@ pub fn run(cx: &mut Cx) {
                             w.extend_from_slice(&buf);
                             r
                         }, &|| replay.clone());
+                    }
+                }
+            }
+            continue;
+        }
+        // ---- (G) break/continue below every nesting (2-4 levels) of for / filter section / set-block / component body / if.
+        //      Whether a shape is accepted is the parser's business; every accepted one must render with balanced stacks
+        //      (hook H3, attributed per shape here) and, where the jump crosses no capture, to the text a small model gives.
+        if case < n_ref + n_depth + n_crash + n_matrix + n_repl + n_brk {
+            let k = case - (n_ref + n_depth + n_crash + n_matrix + n_repl);
+            cx.begin_case(case, "break-continue-nesting");
+            let mut shapes: Vec<Vec<u8>> = vec![];
+            for len in 2..=4usize {
+                for code in 0..5usize.pow(len as u32) {
+                    let mut c = code;
+                    let sh: Vec<u8> = (0..len).map(|_| { let d = (c % 5) as u8; c /= 5; d }).collect();
+                    if sh.contains(&0) {
+                        shapes.push(sh);
+                    }
+                }
+            }
+            for (si, sh) in shapes.iter().enumerate() {
+                if si as u64 % n_brk != k {
+                    continue;
+                }
+                for jump in ["break", "continue"] {
+                    // source and model text; sig: None / Some(jump) travelling outwards
+                    fn build(sh: &[u8], jump: &str, lvl: usize) -> String {
+                        if sh.is_empty() {
+                            return format!("{{% if i{} == 2 %}}{{% {jump} %}}{{% endif %}}x", lvl);
+                        }
+                        let inner = build(&sh[1..], jump, lvl + (sh[0] == 0) as usize);
+                        match sh[0] {
+                            0 => format!("{{% for i{} in [1, 2, 3] %}}a{{{{ i{} }}}}{inner}b{{% endfor %}}", lvl + 1, lvl + 1),
+                            1 => format!("{{% filter upper %}}c{inner}d{{% endfilter %}}"),
+                            2 => format!("{{% set s{} %}}e{inner}f{{% endset %}}{{{{ s{} }}}}", sh.len(), sh.len()),
+                            3 => format!("{{% <w> %}}g{inner}h{{% </w> %}}"),
+                            _ => format!("{{% if true %}}j{inner}k{{% endif %}}"),
+                        }
+                    }
+                    // model: Err(()) when a jump would have to cross a capture
+                    fn model(sh: &[u8], jump: &str, cur: Option<i64>, out: &mut String) -> Result<Option<bool>, ()> {
+                        // returns Some(true) = break travelling, Some(false) = continue travelling
+                        if sh.is_empty() {
+                            if cur == Some(2) {
+                                return Ok(Some(jump == "break"));
+                            }
+                            out.push('x');
+                            return Ok(None);
+                        }
+                        match sh[0] {
+                            0 => {
+                                for i in 1..=3 {
+                                    out.push('a');
+                                    out.push_str(&i.to_string());
+                                    match model(&sh[1..], jump, Some(i), out)? {
+                                        Some(true) => return Ok(None),
+                                        Some(false) => continue,
+                                        None => {}
+                                    }
+                                    out.push('b');
+                                }
+                                Ok(None)
+                            }
+                            4 => {
+                                out.push('j');
+                                let r = model(&sh[1..], jump, cur, out)?;
+                                if r.is_none() {
+                                    out.push('k');
+                                }
+                                Ok(r)
+                            }
+                            c => {
+                                let mut inner = String::new();
+                                let (l, r) = match c { 1 => ("c", "d"), 2 => ("e", "f"), _ => ("g", "h") };
+                                inner.push_str(l);
+                                if model(&sh[1..], jump, cur, &mut inner)?.is_some() {
+                                    return Err(());
+                                }
+                                inner.push_str(r);
+                                match c {
+                                    1 => out.push_str(&inner.to_uppercase()),
+                                    2 => out.push_str(&inner),
+                                    _ => { out.push('['); out.push_str(&inner); out.push(']'); }
+                                }
+                                Ok(None)
+                            }
+                        }
+                    }
+                    // the innermost loop variable must exist where the jump sits: shapes whose jump is above every loop are
+                    // "jump outside a loop" (refused by the parser); keep them, they must simply not panic
+                    let depth_of_loops = sh.iter().filter(|c| **c == 0).count();
+                    let src = format!("head|{}|tail", build(sh, jump, 0)).replace("i0 == 2", "true");
+                    let tpls = vec![("w.html".to_string(), "{% component w() %}[{{ body }}]{% endcomponent %}".to_string()), ("t.html".to_string(), src.clone())];
+                    let replay = json!({"templates": tpls, "shape": sh.iter().map(|c| ["for", "filter", "set-block", "component-body", "if"][*c as usize]).collect::<Vec<_>>(), "jump": jump});
+                    cx.eval();
+                    let built = guard(|| {
+                        let mut t = Tera::default();
+                        t.autoescape_on(Vec::<&'static str>::new());
+                        t.add_raw_templates(tpls.clone()).map(|_| t).map_err(|e| e.to_string())
+                    });
+                    let t = match built {
+                        Err(p) => {
+                            cx.violation(&format!("C07/panic/{}", panic_site(&p)), format!("registration panicked: {p}"), replay);
+                            continue;
+                        }
+                        Ok(Err(_)) => {
+                            cx.count("jump_shapes_refused", 1);
+                            continue;
+                        }
+                        Ok(Ok(t)) => t,
+                    };
+                    cx.count("jump_shapes_accepted", 1);
+                    let (_, unb0) = tera::verif::render_end_report();
+                    let r = guard(|| t.render("t.html", &Context::new()).map_err(|e| e.to_string()));
+                    cx.eval();
+                    let (_, unb1) = tera::verif::render_end_report();
+                    if unb1.len() > unb0.len() {
+                        let u = &unb1[unb0.len()];
+                        cx.violation(&format!("C07/stacks-not-empty-after-render/{}", u.site), format!("`{jump}` under {:?}: interpreter run `{}` had (value, loop, capture) stacks {:?} before and {:?} after; rendered {:?}", replay["shape"], u.site, u.before, u.after, r), replay.clone());
+                    }
+                    let mut exp = String::from("head|");
+                    let m = model(sh, jump, None, &mut exp);
+                    exp.push_str("|tail");
+                    let _ = depth_of_loops;
+                    match (r, m) {
+                        (Err(p), _) => cx.violation(&format!("C07/panic/{}", panic_site(&p)), format!("render panicked: {p}"), replay),
+                        (Ok(Ok(o)), Ok(_)) => {
+                            cx.count("jump_shapes_compared_with_model", 1);
+                            if o != exp {
+                                cx.violation("C07/jump-loses-or-misplaces-output", format!("`{jump}` under {:?} rendered {o:?}, the loop semantics give {exp:?}", replay["shape"]), replay);
+                            }
+                        }
+                        // accepted although the jump crosses a capture: only the stack monitor above decides
+                        (Ok(Ok(_)), Err(())) => cx.count("jump_across_capture_accepted", 1),
+                        (Ok(Err(_)), _) => cx.count("renders_err", 1),
                     }
                 }
             }
